@@ -318,4 +318,24 @@ def WF0 : P → Prop
   | .conv _ a => WF0 a | .convIf _ a => WF0 a | .ignore a => WF0 a | .named a => WF0 a
   | _ => True
 
+/-- well-formed **possibly recursive** parser (Ford's WF with an explicit ranking): `WFr rk K p k` says that `p` may
+stand at a position where the enclosing rules have rank `k` — a `ref j` that can be entered without any input having
+been consumed since the rule started must have a strictly smaller rank (`rk j < k`: no left recursion); behind a
+non-nullable prefix the bound is the global one `K` (every rule is allowed). Repetitions have non-nullable bodies. -/
+def WFr (rk : Nat → Nat) (K : Nat) : P → Nat → Prop
+  | .ref j, k => rk j < k
+  | .seq a b, k => WFr rk K a k ∧ WFr rk K b (if nullable a then k else K)
+  | .alt a b, k => WFr rk K a k ∧ WFr rk K b k
+  | .rep a, k => WFr rk K a k ∧ nullable a = false
+  | .plus a, k => WFr rk K a k ∧ nullable a = false
+  | .sep a s, k => WFr rk K a k ∧ WFr rk K s k ∧ (nullable s && nullable a) = false
+  | .list o a s c, k => WFr rk K o k ∧ WFr rk K a k ∧ WFr rk K s k ∧ WFr rk K c k ∧ (nullable s && nullable a) = false
+  | .opt a, k => WFr rk K a k | .not a, k => WFr rk K a k | .fatal a, k => WFr rk K a k | .lexeme a, k => WFr rk K a k
+  | .conv _ a, k => WFr rk K a k | .convIf _ a, k => WFr rk K a k | .ignore a, k => WFr rk K a k | .named a, k => WFr rk K a k
+  | _, _ => True
+
+/-- a well-formed grammar: some ranking of the rules, bounded by `K`, under which every rule body is well-formed at
+its own rank -/
+def GWF (g : G) (rk : Nat → Nat) (K : Nat) : Prop := ∀ j, rk j < K ∧ WFr rk K (g.rules j) (rk j)
+
 end Fcppt.C02
